@@ -95,12 +95,14 @@ def one_case(ctx: Ctx, stream: str, i: int, max_nside: int) -> None:
     # ---- independent pointing model ---------------------------------------------------------------------------
     coords = np.asarray(dets.coords, dtype=np.float64)                  # (3, ndet, ndir)
     pix = np.zeros((ndet, ndir, nsamp), dtype=int)
+    vecs = np.zeros((ndet, ndir, nsamp, 3))
     ambiguous = np.zeros((ndet, ndir, nsamp), dtype=bool)
     for t in range(nsamp):
         r = euler_zyz(phi[t], theta[t], psi[t])
         for d in range(ndet):
             for k in range(ndir):
                 v = r @ coords[:, d, k]
+                vecs[d, k, t] = v
                 pix[d, k, t] = hp.vec2pix(nside, *v)
                 th, ph = hp.vec2ang(v)
                 for dth, dph in ((1e-4, 0), (-1e-4, 0), (0, 1e-4), (0, -1e-4)):
@@ -146,6 +148,51 @@ def one_case(ctx: Ctx, stream: str, i: int, max_nside: int) -> None:
         n_cmp += 1
     ctx.count('samples-compared', n_cmp)
     ctx.count('samples-ambiguous', int(ambiguous.sum()))
+
+    # ---- maps of a narrow dtype: the dtype of the MAP VALUES must not influence which pixel is read ------------------
+    # (half precision holds integers exactly only up to 2048 / 256: the pixel is decoded from two maps holding the low
+    # and the high part of the pixel number, both exactly representable)
+    ndt = rng.choice([jnp.float16, jnp.bfloat16])
+    base = 1024 if ndt == jnp.float16 else 128
+    nside_n = rng.choice([16, 32])
+    npix_n = 12 * nside_n * nside_n
+    land_n = HealpixLandscape(nside_n, 'I', ndt)
+    stn, proj_n = safe(create_projection_operator, land_n, samp, dets)
+    if stn != 'ok':
+        ctx.fail(stream, i, f'projection-ctor-raises:{stn}:narrow-map-dtype', str(proj_n)[:200], {**cfg, 'map_dtype': str(ndt)})
+    else:
+        icls = StokesPyTree.class_for('I')
+        ids = np.arange(npix_n)
+        parts = [ids % base, (ids // base) % base, ids // (base * base)]
+        dec = np.zeros(vecs.shape[:3] if ndir > 1 else (ndet, nsamp), dtype=np.int64)
+        ok_n = True
+        for w, part in enumerate(parts):
+            stn, todn = safe(proj_n.mv, icls(jnp.asarray(part, dtype=ndt)))
+            if stn != 'ok':
+                ctx.fail(stream, i, f'projection-mv-raises:{stn}:narrow-map-dtype', str(todn)[:200], cfg)
+                ok_n = False
+                break
+            dec += np.asarray(todn.i, dtype=np.float64).astype(np.int64).reshape(dec.shape) * base ** w
+        if ok_n:
+            want_n = np.zeros(vecs.shape[:3], dtype=np.int64)
+            amb_n = np.zeros(vecs.shape[:3], dtype=bool)
+            for idx3 in np.ndindex(vecs.shape[:3]):
+                v = vecs[idx3]
+                want_n[idx3] = hp.vec2pix(nside_n, *v)
+                th, ph = hp.vec2ang(v)
+                for dth, dph in ((1e-4, 0), (-1e-4, 0), (0, 1e-4), (0, -1e-4)):
+                    if hp.ang2pix(nside_n, float(np.clip(th[0] + dth, 0, np.pi)), float(ph[0] + dph)) != want_n[idx3]:
+                        amb_n[idx3] = True
+            if ndir == 1:
+                want_n, amb_n = want_n[:, 0, :], amb_n[:, 0, :]
+            bad = (dec != want_n) & ~amb_n
+            if bad.any():
+                k0 = tuple(int(v) for v in np.argwhere(bad)[0])
+                ctx.fail(stream, i, 'projection-wrong-pixel:narrow-map-dtype',
+                         f'{np.dtype(ndt) if ndt == jnp.float16 else "bfloat16"} map, nside {nside_n}: detector/sample {k0} reads '
+                         f'pixel {int(dec[k0])}, the pointing model says {int(want_n[k0])} ({int(bad.sum())} of {bad.size})',
+                         {**cfg, 'map_dtype': 'float16' if ndt == jnp.float16 else 'bfloat16', 'nside_narrow': nside_n})
+            ctx.count('narrow-map:' + ('float16' if ndt == jnp.float16 else 'bfloat16'))
 
     # ---- acquisition (only defined for one direction per detector: tod shape (ndet, nsamp)) -------------------
     if ndir == 1:
